@@ -31,6 +31,7 @@ def main():
     except ImportError as e:
         print(f"infrastructure error: no check module for {pid}: {e}")
         return 2
+    slot = kit.acquire_run_slot()   # at most VERIF_RUN_SLOTS checks run at once on this machine
     ctx = kit.Check(pid, args.tier, seed)
     try:
         if args.replay:
